@@ -213,6 +213,20 @@ func (e *Engine) atLoopHeader(st *State, fr *Frame, b *ssa.BasicBlock) {
 			cands = append(cands, cand{text: "frame of " + h, quant: true, mkSt: func(s *State) string { return e.frameFormula(s, h) }})
 		}
 	}
+	// invariants of the monitors whose locks are held: the critical section must be able to rely on them after the loop
+	for _, l := range st.locks {
+		if l.mon == nil {
+			continue
+		}
+		l := l
+		for _, inv := range l.mon.Invs {
+			inv := inv
+			cands = append(cands, cand{text: "monitor invariant " + inv.Name, quant: true, mkSt: func(s *State) string {
+				env := e.monitorEnv(s, l.mon, l.base, l.stt)
+				return env.evalBool(inv.Expr)
+			}})
+		}
+	}
 	// candidates must hold on entry
 	if len(cands) > 0 {
 		var checks []candCheck
